@@ -301,7 +301,7 @@ def gen_cases(tier, rng):
     from checks import corpus
     cases = list(corpus.load("C20"))
     cases += exhaustive(tier)
-    nr = {"quick": 500, "thorough": 20000, "search": 40000}[tier]
+    nr = {"quick": 1500, "thorough": 60000, "search": 100000}[tier]
     for _ in range(nr):
         cases.append(rand_days(rng))
     for _ in range(nr // 4):
